@@ -28,6 +28,7 @@ def run(prog: Program, rep: Report, tier: str) -> None:
     asst_coverage(rep, prog)
     pointer_order(rep, prog)
     pointer_entries(rep, prog)
+    negative_expand(rep, prog)
     # D5: the per-component loop of viterbi() decides trivial / iterated and collects x1, lp1, rp1 per component
     from ..rules.loopstate import check_iteration_local
     vf = prog.func('fggs.viterbi', 'viterbi')
@@ -210,6 +211,9 @@ def asst_coverage(rep: Report, prog: Program) -> None:
         if not isinstance(asst, ast.Name) or rule_arg is None:
             rep.error(f"{rule}: {f.loc(c)} cannot identify the asst / rule arguments"); continue
         A, R = asst.id, norm(rule_arg)
+        for st0 in [x for x in own_nodes(f.node) if isinstance(x, ast.Assign) and isinstance(x.targets[0], ast.Subscript) and norm(x.targets[0].value) == A and isinstance(x.value, ast.Constant)]:
+            rep.ob(rule, f.fq(), f"{norm(st0)}: the value given to a node without edges is in every domain", f.loc(st0), st0.value.value == 0,
+                   'index 0 exists in every non-empty domain' if st0.value.value == 0 else f"index {st0.value.value!r} does not exist in a domain of that size or smaller")
         ok = False; detail = f"no loop over {R}.rhs.nodes() stores into {A}"
         for lp in [x for x in own_nodes(f.node) if isinstance(x, ast.For) and norm(x.iter) == f"{R}.rhs.nodes()" and isinstance(x.target, ast.Name)]:
             v = lp.target.id
@@ -341,6 +345,15 @@ def pointer_entries(rep: Report, prog: Program) -> None:
         rec = [x for x in ast.walk(lp) if isinstance(x, ast.Call) and callee_last(x) in ('masked_fill_into', 'fill_')]
         okr = bool(rec) and all(norm(x.args[-1]) == ri for x in rec)
         rep.ob(rule, f.fq(), 'lhs_pointer records the index of the rule that produced the maximum', f.loc(lp), okr, f"recording calls: {[norm(x)[:60] for x in rec]}")
+        # whenever the running maximum of a nonterminal is (re)bound, the rule index is recorded in the same iteration
+        stores = [n for n in cfg.loop_body[hdr] if cfg.nodes[n].kind == 'stmt' and isinstance(cfg.nodes[n].stmt, ast.Assign)
+                  and any(isinstance(t, ast.Subscript) and 'pointer' not in norm(t.value) for t in cfg.nodes[n].stmt.targets)]
+        recn = lambda k: cfg.nodes[k].kind == 'stmt' and any(isinstance(x, ast.Call) and callee_last(x) in ('masked_fill_into', 'fill_') and 'lhs_pointer' in norm(x) for x in ast.walk(cfg.nodes[k].stmt))
+        for st_n in stores:
+            okp, _ = cfg.all_paths_pass(be, recn, targets={st_n})
+            rep.ob(rule, f.fq(), f"{norm(cfg.nodes[st_n].stmt)[:70]}: the producing rule's index is recorded first", f.loc(cfg.nodes[st_n].stmt), okp,
+                   'lhs_pointer is updated on every path to this store' if okp else
+                   'the maximum is taken over from this rule without recording its index: the back-pointer still names an earlier (possibly skipped) rule')
         # strictly-better test compares the new rule with the running maximum *before* it is updated
         for x in rec:
             if callee_last(x) == 'masked_fill_into':
@@ -349,3 +362,52 @@ def pointer_entries(rep: Report, prog: Program) -> None:
                 upd = [n for n in cfg.loop_body[hdr] if cfg.nodes[n].kind == 'stmt' and isinstance(cfg.nodes[n].stmt, ast.Assign) and 'maximum' in norm(cfg.nodes[n].stmt.value)]
                 ok2 = bool(upd) and all(cfg.reaches(n1, u) and not cfg.reaches(u, n1, stop=lambda z: z == hdr) for u in upd)
                 rep.ob(rule, f.fq(), norm(x)[:80], f.loc(x), ok2, 'compared with the running maximum before it is overwritten' if ok2 else 'the running maximum is updated before the comparison: the new rule is never strictly better')
+
+
+def negative_expand(rep: Report, prog: Program) -> None:
+    """PatternedTensor.expand, unlike torch.Tensor.expand, has no meaning for a negative size ("keep this dimension"): unless it
+    handles one, no call on a patterned tensor may pass a negative literal."""
+    rule = 'C04-D1 partial-on-empty'
+    pt = prog.cls(IDX, 'PatternedTensor')
+    ex = pt.methods.get('expand')
+    if ex is None:
+        return
+    n_sites = 0
+    for mod in ('fggs.viterbi', 'fggs.sum_product', 'fggs.multi', 'fggs.semirings'):
+        for f in prog.module(mod).functions.values():
+            if f.is_lambda:
+                continue
+            ptnames = set()
+            for p in f.param_names():
+                ann = f.param_annotation(p) if hasattr(f, 'param_annotation') else None
+                if ann is not None and 'PatternedTensor' in norm(ann):
+                    ptnames.add(p)
+            for a in own_nodes(f.node):
+                if isinstance(a, ast.Assign) and isinstance(a.value, ast.Call):
+                    root = a.value.func
+                    callee = None
+                    if isinstance(root, ast.Name):
+                        r = prog.resolve_global(f.module, root.id)
+                        if r and r[0] == 'func': callee = r[1]
+                    ret_ann = norm(callee.node.returns) if callee is not None and getattr(callee.node, 'returns', None) is not None else ''
+                    recv_root = a.value.func
+                    while isinstance(recv_root, (ast.Attribute, ast.Call, ast.Subscript)):
+                        recv_root = recv_root.value if not isinstance(recv_root, ast.Call) else recv_root.func
+                    if 'PatternedTensor' in ret_ann or (isinstance(recv_root, ast.Name) and recv_root.id in ptnames and isinstance(a.value.func, ast.Attribute)):
+                        for t in a.targets:
+                            for x in ast.walk(t):
+                                if isinstance(x, ast.Name): ptnames.add(x.id)
+            for c in [x for x in own_nodes(f.node) if isinstance(x, ast.Call) and isinstance(x.func, ast.Attribute) and x.func.attr == 'expand']:
+                root = c.func.value
+                while isinstance(root, (ast.Attribute, ast.Call, ast.Subscript)):
+                    root = root.value if not isinstance(root, ast.Call) else root.func
+                if not (isinstance(root, ast.Name) and root.id in ptnames):
+                    continue
+                n_sites += 1
+                neg = [a for a in c.args if (isinstance(a, ast.UnaryOp) and isinstance(a.op, ast.USub) and isinstance(a.operand, ast.Constant))
+                       or (isinstance(a, ast.Constant) and isinstance(a.value, int) and a.value < 0)]
+                rep.ob(rule, f.fq(), f"{norm(c)[:90]}: sizes given to PatternedTensor.expand are actual sizes", f.loc(c), not neg,
+                       'no negative literal' if not neg else f"`{norm(neg[0])}` is passed to PatternedTensor.expand, which (unlike torch) raises on it: the call fails whenever this line is reached")
+    rep.analysed['patterned_expand_sites'] = n_sites
+    ctl = ast.parse("ptr.view(*v, -1).expand(*e, -1)").body[0].value
+    rep.ob(rule, 'positive-control', 'a negative literal among the arguments of expand() is recognised', '-', any(isinstance(a, ast.UnaryOp) for a in ctl.args), '', nontrivial=False)
